@@ -44,6 +44,15 @@ def run(ck: Checker):
     ck.rule('C17-4', 'configuration travels with the object: every attribute set by __init__ of ResponsiveQueue / IterableQueue is carried by __getstate__ and restored by __setstate__ in the same order (AGREE)', minimum=2)
     check_pickle_state(ck, 'C17-4', mod.cls('ResponsiveQueue'))
     check_pickle_state(ck, 'C17-4', cls)
+    # the iteration ends silently on exhaustion only: a stop request raised inside __next__ leaves the for-loop as
+    # StopRequested (C17-3's clause "raise StopRequested instead of blocking on" as seen by a for-loop consumer)
+    it = cls.method('__iter__')
+    hs = [h for n in walk_shallow_func(it.node) if isinstance(n, ast.Try) for h in n.handlers]
+    from mpsa.exc import ExcLattice
+
+    caught = sorted({c for h in hs for c in (ExcLattice.names_of(h.type) if h.type is not None else ['BaseException'])})
+    okh = caught == ['StopIteration']
+    ck.ob('C17-3', it, hs[0] if hs else it.node, okh, '__iter__ ends on StopIteration only' if okh else f'__iter__ ends its loop on {caught}: a consumer blocked in a for-loop when stop is requested ends silently — as if all suppliers had finished — instead of raising StopRequested')
     ck.rule('C17-6', 'token arithmetic: the three token queues hold exactly `num_suppliers` tokens (`used.full()` IS the test "every supplier has finished") and exactly `num_suppliers` spare tokens are created (LINEAR)', minimum=7)
     from .linear import linear_form
 
